@@ -498,3 +498,92 @@ func vfH_C01_session_write() {
 		vfAssert("write/chunks-within-mss", len(vfRingAt(s.kcp.snd_queue, i).data) <= int(s.kcp.mss))
 	}
 }
+
+// (2b) the accept backlog was full when the peer's first datagrams arrived: nothing is created;
+// as soon as the backlog has room the peer's next datagram (a retransmission — any of them)
+// produces exactly one session and one Accept, and further datagrams add nothing. A second
+// peer arriving in between gets its own single session.
+func vfH_C11_backlog_then_room() {
+	ck := []int{vfCipherNil, vfCipherNone}[vfPick("cipher", 0, 1)]
+	d, p := vfPickFEC()
+	cconn, lconn := vfNewConn(), vfNewConn()
+	client := vfNewSession(vfU32("conv"), d, p, nil, cconn, vfServerAddr, vfMakeCipher(ck))
+	client.SetNoDelay(0, 100, 0, 1)
+	l, _ := serveConn(vfMakeCipher(ck), d, p, lconn, false)
+	for i := 0; i < acceptBacklog; i++ {
+		l.chAccepts <- nil
+	}
+	vfSetClock(vfU32("t0"))
+	client.Write(vfBytes("m0", 3))
+	client.Write(vfBytes("m1", 2))
+	vfDrainTx(client)
+	for _, w := range cconn.writes {
+		l.packetInput(vfCopy(w.data), vfClientAddr)
+	}
+	vfAssert("c11/full-backlog-creates-nothing", vfAnd(len(l.sessions) == 0, len(l.chAccepts) == acceptBacklog))
+	vfReach("full")
+	<-l.chAccepts // the application accepts one of the earlier connections
+	// which of the peer's datagrams is seen first now is arbitrary (retransmission, reordering)
+	first := vfPick("first", 0, len(cconn.writes)-1)
+	l.packetInput(vfCopy(cconn.writes[first].data), vfClientAddr)
+	created := len(l.sessions)
+	vfAssert("c11/at-most-one-session-per-peer", created <= 1)
+	for i, w := range cconn.writes {
+		if i != first {
+			l.packetInput(vfCopy(w.data), vfClientAddr)
+		}
+	}
+	vfReach("post")
+	vfAssert("c11/one-session-once-there-is-room", len(l.sessions) == 1)
+	vfAssert("c11/one-accept-once-there-is-room", len(l.chAccepts) == acceptBacklog)
+	// drain the stale nil entries; the last one is the new session
+	var s *UDPSession
+	for len(l.chAccepts) > 0 {
+		s = <-l.chAccepts
+	}
+	vfAssert("c11/accepted-is-the-table-entry", s != nil && l.sessions[string(vfClientAddr)] == s)
+	if s != nil {
+		vfAssert("c11/conv-is-the-peer's", s.GetConv() == client.GetConv())
+	}
+}
+
+// (3b) connect / close / reconnect from the same address with a new conversation: the closed
+// session leaves the table, the new conversation gets a fresh, empty session and exactly one
+// Accept, and nothing of the new conversation reaches the closed session.
+func vfH_C11_close_reconnect() {
+	ck := []int{vfCipherNil, vfCipherNone}[vfPick("cipher", 0, 1)]
+	d, p := vfPickFEC()
+	pr := vfConnect(ck, d, p, 1)
+	vfAssert("connect/accepted", pr.srv != nil)
+	if pr.srv == nil {
+		vfStop()
+	}
+	old := pr.srv
+	b := make([]byte, 8)
+	n, _ := old.Read(b)
+	vfAssert("reconnect/first-conversation-delivered", n == 3)
+	vfAssert("reconnect/first-close", old.Close() == nil)
+	vfAssert("c11/closed-session-leaves-the-table", len(pr.l.sessions) == 0)
+	vfReach("closed")
+	conn2 := vfNewConn()
+	c2 := vfNewSession(vfU32("conv2"), d, p, nil, conn2, vfServerAddr, vfMakeCipher(ck))
+	vfAssume(c2.kcp.conv != old.kcp.conv)
+	c2.SetNoDelay(0, 100, 0, 1)
+	c2.Write(vfBytes("n0", 2))
+	vfDrainTx(c2)
+	rq0, rn0 := old.kcp.rcv_queue.Len(), old.kcp.rcv_nxt
+	for _, w := range conn2.writes {
+		pr.l.packetInput(vfCopy(w.data), vfClientAddr)
+	}
+	vfReach("reconnected")
+	vfAssert("c11/reconnect-creates-exactly-one-session", len(pr.l.sessions) == 1)
+	vfAssert("c11/reconnect-produces-exactly-one-accept", len(pr.l.chAccepts) == 1)
+	nw := pr.l.sessions[string(vfClientAddr)]
+	vfAssert("c11/reconnect-session-is-new", nw != nil && nw != old)
+	vfAssert("c11/closed-session-not-fed", vfAnd(old.kcp.rcv_queue.Len() == rq0, old.kcp.rcv_nxt == rn0))
+	if nw != nil {
+		vfAssert("c11/reconnect-session-has-the-new-conv", nw.kcp.conv == c2.kcp.conv)
+		m, err := nw.Read(b)
+		vfAssert("c11/reconnect-session-delivers-only-the-new-stream", err == nil && m == 2 && vfConcreteBool(vfBytesEq(b[:2], vfBytes("n0", 2))))
+	}
+}
